@@ -14,12 +14,21 @@ open List
 
 /-! ## Sound stores -/
 
+/-- every blob is the plain value of a chained, analysed call with that signature, run from a plain state that holds, at
+every path the call loads, the blob of the signature the path resolved to -/
 def Sound (U : Universe) (m : Nat) (x : Nat) (S : PStore) : Prop :=
   ∀ k v, sgGet S.blobs k = some v →
     ∃ (W : World) (fn : Fn) (ctx : ArgCtx) (env : Env) (fuel : Nat) (refs : Refs) (stack : List String)
       (fis : FIS) (r : Refs) (p : PSt),
-      U.world W ∧ W.extVersion = x ∧ U.fns fn ∧ Chain U m W fn ctx env ∧
-      analyse m W fuel refs stack fn ctx = .ok (fis, r) ∧ fis.retSig = k ∧ (plainFn W fuel p fn env).1 = .ok v
+      U.world W ∧ W.extVersion = x ∧ U.fns fn ∧ Chain U m S.blobs W fn ctx env ∧
+      analyse m W fuel refs stack fn ctx = .ok (fis, r) ∧ fis.retSig = k ∧ FIS.loadsOK S.blobs p.kept fis ∧
+      (plainFn W fuel p fn env).1 = .ok v
+
+/-- the second store has every blob of the first, with the same value -/
+def Extends (S S' : PStore) : Prop := ∀ k v, sgGet S.blobs k = some v → sgGet S'.blobs k = some v
+
+theorem Extends.refl (S : PStore) : Extends S S := fun _ _ h => h
+theorem Extends.trans {A B C : PStore} (h1 : Extends A B) (h2 : Extends B C) : Extends A C := fun k v h => h2 k v (h1 k v h)
 
 theorem sgGet_filter_ne {α} (l : List (Sg × α)) (k k' : Sg) (h : k' ≠ k) :
     sgGet (l.filter (fun kv => kv.1 ≠ k)) k' = sgGet l k' := by
@@ -53,29 +62,57 @@ theorem sgGet_storeBlob (S : PStore) (k k' : Sg) (v v' : RVal) (h : sgGet (S.sto
       rw [this, sgGet_filter_ne _ _ _ hk] at h
       exact Or.inr h
 
-/-- storing the plain value of a chained, analysed call under its signature keeps the store sound -/
+/-- storing under a key that has no blob yet keeps every blob -/
+theorem extends_storeBlob (S : PStore) (k : Sg) (v : RVal) (hnone : sgGet S.blobs k = none) : Extends S (S.storeBlob k v) := by
+  intro k' v' h
+  unfold PStore.storeBlob
+  by_cases hn : S.noop = true
+  · simp only [hn, if_true]; exact h
+  · simp only [hn, Bool.false_eq_true, if_false]
+    by_cases hk : k' = k
+    · subst hk; rw [hnone] at h; cases h
+    · have : sgGet ((k, v) :: S.blobs.filter (fun kv => kv.1 ≠ k)) k' = sgGet (S.blobs.filter (fun kv => kv.1 ≠ k)) k' := by
+        simp [sgGet, Ne.symm hk]
+      rw [this, sgGet_filter_ne _ _ _ hk]; exact h
+
+/-- a sound store whose blobs are all in a bigger store: the witnesses hold with respect to the bigger store too -/
+theorem Sound.witness_mono {U : Universe} {m x : Nat} {S S' : PStore} (hS : Sound U m x S) (he : Extends S S')
+    {k : Sg} {v : RVal} (h : sgGet S.blobs k = some v) :
+    ∃ (W : World) (fn : Fn) (ctx : ArgCtx) (env : Env) (fuel : Nat) (refs : Refs) (stack : List String)
+      (fis : FIS) (r : Refs) (p : PSt),
+      U.world W ∧ W.extVersion = x ∧ U.fns fn ∧ Chain U m S'.blobs W fn ctx env ∧
+      analyse m W fuel refs stack fn ctx = .ok (fis, r) ∧ fis.retSig = k ∧ FIS.loadsOK S'.blobs p.kept fis ∧
+      (plainFn W fuel p fn env).1 = .ok v := by
+  obtain ⟨W, fn, ctx, env, fuel, refs, stack, fis, r, p, h1, h2, h3, h4, h5, h6, h7, h8⟩ := hS k v h
+  exact ⟨W, fn, ctx, env, fuel, refs, stack, fis, r, p, h1, h2, h3, h4.mono he, h5, h6, loadsOK_mono he fis h7, h8⟩
+
+/-- storing the plain value of a chained, analysed call under its (so far absent) signature keeps the store sound -/
 theorem Sound.storeBlob {U : Universe} {m x : Nat} {S : PStore} (hS : Sound U m x S)
     {W : World} {fn : Fn} {ctx : ArgCtx} {env : Env} {fuel : Nat} {refs : Refs} {stack : List String}
     {fis : FIS} {r : Refs} {p : PSt} {v : RVal}
-    (hW : U.world W) (hx : W.extVersion = x) (hU : U.fns fn) (hc : Chain U m W fn ctx env)
-    (ha : analyse m W fuel refs stack fn ctx = .ok (fis, r)) (hv : (plainFn W fuel p fn env).1 = .ok v) :
+    (hW : U.world W) (hx : W.extVersion = x) (hU : U.fns fn) (hc : Chain U m S.blobs W fn ctx env)
+    (ha : analyse m W fuel refs stack fn ctx = .ok (fis, r)) (hl : FIS.loadsOK S.blobs p.kept fis)
+    (hv : (plainFn W fuel p fn env).1 = .ok v) (hnone : sgGet S.blobs fis.retSig = none) :
     Sound U m x (S.storeBlob fis.retSig v) := by
+  have he := extends_storeBlob S fis.retSig v hnone
   intro k' v' h
   rcases sgGet_storeBlob S _ _ _ _ h with ⟨rfl, rfl⟩ | h'
-  · exact ⟨W, fn, ctx, env, fuel, refs, stack, fis, r, p, hW, hx, hU, hc, ha, rfl, hv⟩
-  · exact hS k' v' h'
+  · exact ⟨W, fn, ctx, env, fuel, refs, stack, fis, r, p, hW, hx, hU, hc.mono he, ha, rfl, loadsOK_mono he fis hl, hv⟩
+  · exact hS.witness_mono he h'
 
 /-- **a served blob is the right value**: in a sound store, the blob under the signature of the current call is the
-plain value of the current call in the current version of the code -/
+plain value of the current call in the current version of the code, from any plain state that holds the blobs of the paths
+the call loads -/
 theorem served_right {U : Universe} {m x : Nat} {S : PStore} (hS : Sound U m x S)
     {W : World} {fn : Fn} {ctx : ArgCtx} {env : Env} {fuel : Nat} {refs : Refs} {stack : List String}
     {fis : FIS} {r : Refs} {v : RVal}
-    (hW : U.world W) (hx : W.extVersion = x) (hU : U.fns fn) (hc : Chain U m W fn ctx env)
-    (ha : analyse m W fuel refs stack fn ctx = .ok (fis, r)) (hb : sgGet S.blobs fis.retSig = some v) (p : PSt) :
+    (hW : U.world W) (hx : W.extVersion = x) (hU : U.fns fn) (hc : Chain U m S.blobs W fn ctx env)
+    (ha : analyse m W fuel refs stack fn ctx = .ok (fis, r)) (hb : sgGet S.blobs fis.retSig = some v) (p : PSt)
+    (hl : FIS.loadsOK S.blobs p.kept fis) :
     (plainFn W fuel p fn env).1 = .ok v := by
-  obtain ⟨W0, fn0, ctx0, env0, fuel0, refs0, stack0, fis0, r0, p0, hW0, hx0, hU0, hc0, ha0, hs0, hv0⟩ := hS _ _ hb
+  obtain ⟨W0, fn0, ctx0, env0, fuel0, refs0, stack0, fis0, r0, p0, hW0, hx0, hU0, hc0, ha0, hs0, hl0, hv0⟩ := hS _ _ hb
   rw [← hv0]
-  exact sig_sound_full U m hc hc0 hW hW0 (hx.trans hx0.symm) hU hU0 ha ha0 hs0.symm p p0
+  exact sig_sound_full U m hc hc0 hW hW0 (hx.trans hx0.symm) hU hU0 ha ha0 hs0.symm p p0 hl hl0
 
 /-! ## The path map fixed by the analysis covers every kept call of the tree -/
 
@@ -445,15 +482,11 @@ theorem plainItems_snoc (W : World) (rec : PlainRec) (env : Env) :
         simp only at h1 ⊢
         exact plainItems_snoc W rec env pre st' q q' _ results it v h1 h2
 
-/-! ## Simulation: running under dds against a sound store = plain execution -/
+/-! ## Frames: what the analysis and plain execution leave alone
 
-/-- `SimFn fuel`: running the body of an analysed, chained call under dds (with the path map of the evaluation and a
-sound store) gives the value of plain execution and leaves a sound store -/
-def SimFn (U : Universe) (m x : Nat) (W : World) (paths : List (String × Sg)) (fuel : Nat) : Prop :=
-  ∀ (fn : Fn) (ctx : ArgCtx) (env : Env) (refs : Refs) (stack : List String) (fis : FIS) (r : Refs) (st : XSt) (p : PSt),
-    U.fns fn → Chain U m W fn ctx env → analyse m W fuel refs stack fn ctx = .ok (fis, r) →
-    FIS.pathsOKL paths fis.subs → Sound U m x st.store →
-    (runFn W paths fuel st fn env).1 = (plainFn W fuel p fn env).1 ∧ Sound U m x (runFn W paths fuel st fn env).2.store
+`paths` is the path map of the evaluation. A path that is not in the map is *external*: no call of the evaluation is kept
+there. The analysis never changes what an external path resolves to, and plain execution never changes what the plain state
+holds at an external path. -/
 
 theorem pathsOK_iff (paths : List (String × Sg)) (f : FIS) :
     FIS.pathsOK paths f ↔ (∀ q, f.storePath = some q → aget paths q = some f.retSig) ∧ FIS.pathsOKL paths f.subs := by
@@ -471,523 +504,231 @@ theorem analyse_storePath {m : Nat} {W : World} {fuel : Nat} {refs : Refs} {stac
     obtain ⟨_, _, _, _, _, _, a⟩ := analyse_inv h
     rw [a.hfis]; rfl
 
-/-- a kept call (explicit `keep`, or a data function) of an analysed, chained callee -/
-theorem sim_keep (U : Universe) {m x : Nat} {W : World} {paths : List (String × Sg)} {fuel : Nat}
-    (hIH : SimFn U m x W paths fuel) (hW : U.world W) (hx : W.extVersion = x)
-    {g : Fn} {ctx : ArgCtx} {env' : Env} {refs : Refs} {stack : List String} {fis : FIS} {rf : Refs} {xst : XSt} {path : String}
-    (hU : U.fns g) (hc : Chain U m W g ctx env') (ha : analyse m W fuel refs stack g ctx = .ok (fis, rf))
-    (hkey : aget paths path = some fis.retSig) (hsubs : FIS.pathsOKL paths fis.subs) (hS : Sound U m x xst.store) (q : PSt) :
-    (keepExec paths (runFn W paths fuel) xst path g env').1 = (plainFn W fuel q g env').1 ∧
-    Sound U m x (keepExec paths (runFn W paths fuel) xst path g env').2.store := by
-  unfold keepExec
-  simp only [hkey]
-  cases hb : sgGet xst.store.blobs fis.retSig with
-  | some v =>
-    simp only
-    exact ⟨(served_right hS hW hx hU hc ha hb q).symm, hS⟩
-  | none =>
-    simp only
-    obtain ⟨h1, h2⟩ := hIH g ctx env' refs stack fis rf xst q hU hc ha hsubs hS
-    cases hr : runFn W paths fuel xst g env' with
-    | mk res st' =>
-      rw [hr] at h1 h2
-      cases res with
-      | ok v =>
-        simp only at h1 ⊢
-        exact ⟨h1, Sound.storeBlob h2 hW hx hU hc ha h1.symm⟩
-      | error e => exact ⟨h1, h2⟩
-
-/-- any call of an analysed, chained callee made while running under dds -/
-theorem sim_call (U : Universe) {m x : Nat} {W : World} {paths : List (String × Sg)} {fuel : Nat}
-    (hIH : SimFn U m x W paths fuel) (hW : U.world W) (hx : W.extVersion = x)
-    {g : Fn} {ctx : ArgCtx} {env' : Env} {refs : Refs} {stack : List String} {fis : FIS} {rf : Refs} {xst : XSt}
-    (hU : U.fns g) (hc : Chain U m W g ctx env') (ha : analyse m W fuel refs stack g ctx = .ok (fis, rf))
-    (kp : Option String)
-    (hkey : ∀ path, (kp = some path ∨ (kp = none ∧ g.storePath = some path)) → aget paths path = some fis.retSig)
-    (hsubs : FIS.pathsOKL paths fis.subs) (hS : Sound U m x xst.store) (q : PSt) :
-    (match kp with
-      | some path => keepExec paths (runFn W paths fuel) xst path g env'
-      | none => callExec paths (runFn W paths fuel) xst g env').1 = (plainFn W fuel q g env').1 ∧
-    Sound U m x (match kp with
-      | some path => keepExec paths (runFn W paths fuel) xst path g env'
-      | none => callExec paths (runFn W paths fuel) xst g env').2.store := by
-  cases kp with
-  | some path => exact sim_keep U hIH hW hx hU hc ha (hkey path (Or.inl rfl)) hsubs hS q
-  | none =>
-    simp only [callExec]
-    cases hp : g.storePath with
-    | some path => exact sim_keep U hIH hW hx hU hc ha (hkey path (Or.inr ⟨rfl, hp⟩)) hsubs hS q
-    | none => exact hIH g ctx env' refs stack fis rf xst q hU hc ha hsubs hS
-
-/-- the body of an analysed, chained call that is being run -/
-structure BodyCtx (U : Universe) (m x : Nat) (W : World) (fn : Fn) (cctx : ArgCtx) (env : Env)
-    (ev : List (String × Sg)) (io : Option Sg) : Prop where
-  hW : U.world W
-  hx : W.extVersion = x
-  hU : U.fns fn
-  hch : Chain U m W fn cctx env
-  hev : hashVars m fn.vars = .ok ev
-  hio : buildReturnSig none cctx [] [] fn.exts ev = .ok io
-
-theorem callee_consts {it : Item} {f : String} {args : List AstArg} {kwargs : List (String × AstArg)}
-    {rtA : List (Option RtExpr)} {rtK : List (String × Option RtExpr)} (h : it.callee = some (f, args, kwargs, rtA, rtK)) :
-    (∀ v, AstArg.const v ∈ args → it.hasConst v) ∧ (∀ n v, (n, AstArg.const v) ∈ kwargs → it.hasConst v) := by
-  cases it with
-  | call g l => simp only [Item.callee, Option.some.injEq, Prod.mk.injEq] at h; obtain ⟨_, rfl, rfl, _⟩ := h; simp
-  | ref g l => simp only [Item.callee, Option.some.injEq, Prod.mk.injEq] at h; obtain ⟨_, rfl, rfl, _⟩ := h; simp
-  | callArgs g a k ra rk l =>
-    simp only [Item.callee, Option.some.injEq, Prod.mk.injEq] at h
-    obtain ⟨_, rfl, rfl, _⟩ := h
-    exact ⟨fun v hv => Or.inl hv, fun n v hv => Or.inr ⟨n, hv⟩⟩
-  | keep pth g a k ra rk l =>
-    simp only [Item.callee, Option.some.injEq, Prod.mk.injEq] at h
-    obtain ⟨_, rfl, rfl, _⟩ := h
-    exact ⟨fun v hv => Or.inl hv, fun n v hv => Or.inr ⟨n, hv⟩⟩
-  | load pth l => simp [Item.callee] at h
-  | evalCall g l => simp [Item.callee] at h
-
-/-- the chain of a call made from the body of a chained call -/
-theorem sub_chain {U : Universe} {m x : Nat} {W : World} {fn : Fn} {cctx : ArgCtx} {env : Env}
-    {ev : List (String × Sg)} {io : Option Sg} (B : BodyCtx U m x W fn cctx env ev io)
-    {fuel : Nat} {stack : List String} {refs : Refs} {p0 : PSt}
-    {pre post : List Item} {it : Item} {s : VisitSt} {results : List RVal}
-    (hitems : fn.items = pre ++ it :: post)
-    (hvis : visitItems m W (analyse m W fuel) fn (io.getD (hJoin [])) stack { refs := refs } pre = .ok s)
-    (hres : (plainItems W (plainFn W fuel) env p0 [] pre).1 = .ok results)
-    {f : String} {args : List AstArg} {kwargs : List (String × AstArg)} {rtA : List (Option RtExpr)}
-    {rtK : List (String × Option RtExpr)} (hcallee : it.callee = some (f, args, kwargs, rtA, rtK))
-    {g : Fn} {c : Option Sg} {named : List (String × Option Sg)} {fis : FIS} {rf : Refs}
-    (hstep : CallStep m W (analyse m W fuel) fn (io.getD (hJoin [])) stack s f args kwargs it.line g c named fis rf)
-    {env' : Env} (hbind : bindRun g.params (zipArgs results env args rtA) (zipKw results env kwargs rtK) 0 = some env') :
-    Chain U m W g ⟨named, c⟩ env' := by
-  have hmem : it ∈ fn.items := by rw [hitems]; simp
-  have hUg := U.find B.hW hstep.find
-  cases hall : allSome named with
-  | some kvs =>
-    obtain ⟨hc1, hc2⟩ := callee_consts hcallee
-    obtain ⟨vals, r1, r2, r3, r4⟩ := const_case U results env rtA rtK
-      (fun v hv => U.constsIn fn B.hU it hmem v (hc1 v hv)) (fun n v hv => U.constsIn fn B.hU it hmem v (hc2 n v hv))
-      g.params 0 named kvs env' (U.defaultsIn g hUg) hstep.hnamed hall hbind
-    rw [r1, r2]
-    exact Chain.const W g c vals r3 r4
-  | none =>
-    obtain ⟨bh, _, hc⟩ := siteCtx_inv hstep.site
-    obtain ⟨k, hk⟩ := contextSig_isSome bh (io.getD (hJoin []))
-      (hashCommut (fisSigList (s.inters.map FIS.retSig) ++ loadsSigList s.refs (dedupStr s.loads)))
-    rw [hk] at hc
-    subst hc
-    exact Chain.site W fn cctx env fuel stack refs pre it post s results p0 f args kwargs rtA rtK g k named fis rf env' ev io
-      B.hch B.hW B.hU hitems B.hev B.hio hvis hres hcallee hstep hall hbind
-
-theorem sim_callstep {U : Universe} {m x : Nat} {W : World} {paths : List (String × Sg)} {fuel : Nat}
-    (hIH : SimFn U m x W paths fuel) {fn : Fn} {cctx : ArgCtx} {env : Env}
-    {ev : List (String × Sg)} {io : Option Sg} (B : BodyCtx U m x W fn cctx env ev io)
-    {stack : List String} {refs : Refs} {p0 q : PSt}
-    {pre post : List Item} {it : Item} {s : VisitSt} {results : List RVal} {xst : XSt}
-    (hitems : fn.items = pre ++ it :: post)
-    (hvis : visitItems m W (analyse m W fuel) fn (io.getD (hJoin [])) stack { refs := refs } pre = .ok s)
-    (hplain : plainItems W (plainFn W fuel) env p0 [] pre = (.ok results, q))
-    {f : String} {args : List AstArg} {kwargs : List (String × AstArg)} {rtA : List (Option RtExpr)}
-    {rtK : List (String × Option RtExpr)} (hcallee : it.callee = some (f, args, kwargs, rtA, rtK))
-    {g : Fn} {c : Option Sg} {named : List (String × Option Sg)} {fis : FIS} {rf : Refs}
-    (hstep : CallStep m W (analyse m W fuel) fn (io.getD (hJoin [])) stack s f args kwargs it.line g c named fis rf)
-    (kp : Option String)
-    (hkey : ∀ path, (kp = some path ∨ (kp = none ∧ g.storePath = some path)) → aget paths path = some fis.retSig)
-    (hsubs : FIS.pathsOKL paths fis.subs) (hS : Sound U m x xst.store) :
-    (runCall W paths (runFn W paths fuel) xst f (zipArgs results env args rtA) (zipKw results env kwargs rtK) kp).1 =
-      callVal W (plainFn W fuel) q f (zipArgs results env args rtA) (zipKw results env kwargs rtK) ∧
-    Sound U m x (runCall W paths (runFn W paths fuel) xst f (zipArgs results env args rtA) (zipKw results env kwargs rtK) kp).2.store := by
-  simp only [runCall, callVal, hstep.find]
-  cases hb : bindRun g.params (zipArgs results env args rtA) (zipKw results env kwargs rtK) 0 with
-  | none => exact ⟨rfl, hS⟩
-  | some env' =>
-    have hres : (plainItems W (plainFn W fuel) env p0 [] pre).1 = .ok results := by rw [hplain]
-    have hc := sub_chain B hitems hvis hres hcallee hstep hb
-    exact sim_call U hIH B.hW B.hx (U.find B.hW hstep.find) hc hstep.sub kp hkey hsubs hS q
-
-/-- the functions already referenced by name in this body: analysed, chained, their kept paths resolved -/
-def SeenOK (U : Universe) (m : Nat) (W : World) (paths : List (String × Sg)) (fuel : Nat) (seen : List String) : Prop :=
-  ∀ f ∈ seen, ∃ (g : Fn) (ctx : ArgCtx) (fis : FIS) (rf refs0 : Refs) (stack0 : List String),
-    W.find f = some g ∧ analyse m W fuel refs0 stack0 g ctx = .ok (fis, rf) ∧
-    (∀ env', bindRun g.params [] [] 0 = some env' → Chain U m W g ctx env') ∧ FIS.pathsOK paths fis
-
-theorem sim_seen {U : Universe} {m x : Nat} {W : World} {paths : List (String × Sg)} {fuel : Nat}
-    (hIH : SimFn U m x W paths fuel) (hW : U.world W) (hx : W.extVersion = x) {seen : List String}
-    (hseen : SeenOK U m W paths fuel seen) {f : String} (hf : f ∈ seen) {xst : XSt} (hS : Sound U m x xst.store) (q : PSt) :
-    (runCall W paths (runFn W paths fuel) xst f [] [] none).1 = callVal W (plainFn W fuel) q f [] [] ∧
-    Sound U m x (runCall W paths (runFn W paths fuel) xst f [] [] none).2.store := by
-  obtain ⟨g, ctx, fis, rf, refs0, stack0, hfind, ha, hch, hok⟩ := hseen f hf
-  simp only [runCall, callVal, hfind]
-  cases hb : bindRun g.params [] [] 0 with
-  | none => exact ⟨rfl, hS⟩
-  | some env' =>
-    obtain ⟨k1, k2⟩ := (pathsOK_iff paths fis).mp hok
-    refine sim_call U hIH hW hx (U.find hW hfind) (hch env' hb) ha none ?_ k2 hS q
-    intro path hp
-    rcases hp with hp | ⟨_, hp⟩
-    · cases hp
-    · exact k1 path (by rw [analyse_storePath ha, hp])
-
 theorem mem_final_inters {m : Nat} {W : World} {rec : Analyse} {fn : Fn} {isig : Sg} {stack : List String}
     {its : List Item} {t sfin : VisitSt} (hr : visitItems m W rec fn isig stack t its = .ok sfin) {f : FIS}
     (hf : f ∈ t.inters) : f ∈ sfin.inters := by
   obtain ⟨d, hd⟩ := visitItems_grows hr
   rw [hd]; exact mem_append_left _ hf
 
-/-- **running the items of a body under dds = running them plainly** -/
-theorem sim_items {U : Universe} {m x : Nat} {W : World} {paths : List (String × Sg)} {fuel : Nat}
-    (hIH : SimFn U m x W paths fuel) {fn : Fn} {cctx : ArgCtx} {env : Env}
-    {ev : List (String × Sg)} {io : Option Sg} (B : BodyCtx U m x W fn cctx env ev io)
-    (stack : List String) (refs : Refs) (p0 : PSt) :
-    ∀ (its pre : List Item) (s sfin : VisitSt) (results : List RVal) (q : PSt) (xst : XSt),
-      fn.items = pre ++ its →
-      visitItems m W (analyse m W fuel) fn (io.getD (hJoin [])) stack { refs := refs } pre = .ok s →
-      plainItems W (plainFn W fuel) env p0 [] pre = (.ok results, q) →
-      visitItems m W (analyse m W fuel) fn (io.getD (hJoin [])) stack s its = .ok sfin →
-      FIS.pathsOKL paths sfin.inters → SeenOK U m W paths fuel s.seen → Sound U m x xst.store →
-      (runItems W (some paths) (runFn W paths fuel) fn env xst results its).1 =
-        (plainItems W (plainFn W fuel) env q results its).1 ∧
-      Sound U m x (runItems W (some paths) (runFn W paths fuel) fn env xst results its).2.store
-  | [], _, _, _, _, _, _, _, _, _, _, _, _, hS => ⟨rfl, hS⟩
-  | it :: its, pre, s, sfin, results, q, xst, hitems, hvis, hplain, hrest, hok, hseen, hS => by
-    obtain ⟨t, hv, hr⟩ := visitItems_cons_inv hrest
-    rw [runItems_cons, plainItems_cons]
-    have hmem : it ∈ fn.items := by rw [hitems]; simp
-    have claim : (runItemRes W paths (runFn W paths fuel) env xst results it).1 =
-          (plainItemRes W (plainFn W fuel) env q results it).1 ∧
-        Sound U m x (runItemRes W paths (runFn W paths fuel) env xst results it).2.store ∧
-        SeenOK U m W paths fuel t.seen := by
+/-- an explicit `keep` is never applied to a data function (which is kept at its own path already) -/
+def World.keepsPlain (W : World) : Prop :=
+  ∀ f ∈ W.funs, ∀ it ∈ f.items, ∀ path g args kwargs rtA rtK l, it = Item.keep path g args kwargs rtA rtK l →
+    ∀ h, W.find g = some h → h.storePath = none
+
+def External (paths : List (String × Sg)) (p : String) : Prop := aget paths p = none
+
+/-- `AFrame fuel`: the analysis of a call leaves every external path resolved as it was -/
+def AFrame (m : Nat) (W : World) (paths : List (String × Sg)) (fuel : Nat) : Prop :=
+  ∀ (refs : Refs) (stack : List String) (fn : Fn) (ctx : ArgCtx) (fis : FIS) (r : Refs), fn ∈ W.funs →
+    analyse m W fuel refs stack fn ctx = .ok (fis, r) → FIS.pathsOK paths fis →
+    ∀ p, External paths p → aget r p = aget refs p
+
+theorem visitItems_refs_frame {m : Nat} {W : World} {paths : List (String × Sg)} {fuel : Nat} (hIH : AFrame m W paths fuel)
+    (hkp : W.keepsPlain) (fn : Fn) (hfn : fn ∈ W.funs) (isig : Sg) (stack : List String) :
+    ∀ (its : List Item), (∀ it ∈ its, it ∈ fn.items) → ∀ (s sfin : VisitSt),
+      visitItems m W (analyse m W fuel) fn isig stack s its = .ok sfin → FIS.pathsOKL paths sfin.inters →
+      ∀ p, External paths p → aget sfin.refs p = aget s.refs p
+  | [], _, s, sfin, h, _, p, _ => by simp [visitItems] at h; subst h; rfl
+  | it :: its, hits, s, sfin, h, hok, p, hp => by
+    obtain ⟨t, hv, hr⟩ := visitItems_cons_inv h
+    rw [visitItems_refs_frame hIH hkp fn hfn isig stack its (fun x hx => hits x (mem_cons_of_mem _ hx)) t sfin hr hok p hp]
+    cases it with
+    | call f l =>
+      obtain ⟨g, c, named, fis, rf, hstep, e⟩ := plain_inv (by simpa [visitItem] using hv)
+      have hin : fis ∈ sfin.inters := mem_final_inters hr (by rw [e]; simp)
+      rw [e]; exact hIH _ _ _ _ _ _ (List.mem_of_find?_eq_some hstep.find) hstep.sub (pathsOKL_mem hok hin) p hp
+    | callArgs f a k ra rk l =>
+      obtain ⟨g, c, named, fis, rf, hstep, e⟩ := plain_inv (by simpa [visitItem] using hv)
+      have hin : fis ∈ sfin.inters := mem_final_inters hr (by rw [e]; simp)
+      rw [e]; exact hIH _ _ _ _ _ _ (List.mem_of_find?_eq_some hstep.find) hstep.sub (pathsOKL_mem hok hin) p hp
+    | ref f l =>
+      rcases ref_inv hv with ⟨_, e⟩ | ⟨_, g, c, named, fis, rf, hstep, e⟩
+      · rw [e]
+      · have hin : fis ∈ sfin.inters := mem_final_inters hr (by rw [e]; simp)
+        rw [e]; exact hIH _ _ _ _ _ _ (List.mem_of_find?_eq_some hstep.find) hstep.sub (pathsOKL_mem hok hin) p hp
+    | keep path f a k ra rk l =>
+      obtain ⟨g, c, named, fis, rf, hstep, _, e⟩ := keep_inv hv
+      have hin : fis.withPath path ∈ sfin.inters := mem_final_inters hr (by rw [e]; simp)
+      obtain ⟨k1, k2⟩ := (pathsOK_iff paths _).mp (pathsOKL_mem hok hin)
+      have hgp : g.storePath = none := hkp fn hfn _ (hits _ mem_cons_self) path f a k ra rk l rfl g hstep.find
+      have hfok : FIS.pathsOK paths fis := by
+        refine (pathsOK_iff paths fis).mpr ⟨fun q hq => ?_, k2⟩
+        rw [analyse_storePath hstep.sub, hgp] at hq; cases hq
+      have hne : p ≠ path := by
+        intro e'; subst e'
+        have := k1 p rfl
+        simp only [External] at hp
+        rw [hp] at this; cases this
+      rw [e]
+      simp only
+      rw [aget_aset_ne _ _ _ _ hne]
+      exact hIH _ _ _ _ _ _ (List.mem_of_find?_eq_some hstep.find) hstep.sub hfok p hp
+    | load path l => rw [load_inv hv]
+    | evalCall f l => simp [visitItem] at hv
+
+theorem aframe (m : Nat) (W : World) (paths : List (String × Sg)) (hkp : W.keepsPlain) : ∀ fuel, AFrame m W paths fuel
+  | 0 => by
+    intro refs stack fn ctx fis r _ h
+    exact absurd h analyse_zero
+  | k + 1 => by
+    intro refs stack fn ctx fis r hfn h hok p hp
+    obtain ⟨ev, io, sv, b, d, ret, a⟩ := analyse_inv h
+    obtain ⟨k1, k2⟩ := (pathsOK_iff paths fis).mp hok
+    have hsub : fis.subs = sv.inters := by rw [a.hfis]; rfl
+    rw [hsub] at k2
+    have hfr := visitItems_refs_frame (aframe m W paths hkp k) hkp fn hfn _ stack fn.items (fun _ h => h) _ sv a.hvisit k2 p hp
+    rw [a.hrefs]
+    cases hsp : fn.storePath with
+    | none => exact hfr
+    | some q =>
+      simp only
+      have hne : p ≠ q := by
+        intro e'; subst e'
+        have := k1 p (by rw [a.hfis]; exact hsp)
+        simp only [External] at hp
+        rw [hp] at this; cases this
+      rw [aget_aset_ne _ _ _ _ hne]; exact hfr
+
+/-- the plain state is unchanged at every external path -/
+def KFrame (paths : List (String × Sg)) (q q' : PSt) : Prop := ∀ p, External paths p → aget q'.kept p = aget q.kept p
+
+theorem KFrame.refl (paths : List (String × Sg)) (q : PSt) : KFrame paths q q := fun _ _ => rfl
+theorem KFrame.trans {paths : List (String × Sg)} {a b c : PSt} (h1 : KFrame paths a b) (h2 : KFrame paths b c) :
+    KFrame paths a c := fun p hp => (h2 p hp).trans (h1 p hp)
+
+/-- `PFrame fuel`: plain execution of an analysed call changes the plain state only at paths of the path map -/
+def PFrame (m : Nat) (W : World) (paths : List (String × Sg)) (fuel : Nat) : Prop :=
+  ∀ (refs : Refs) (stack : List String) (fn : Fn) (ctx : ArgCtx) (env : Env) (fis : FIS) (r : Refs) (q : PSt),
+    analyse m W fuel refs stack fn ctx = .ok (fis, r) → FIS.pathsOKL paths fis.subs →
+    KFrame paths q (plainFn W fuel q fn env).2
+
+/-- the functions already referenced by name in this body: analysed, their kept paths in the path map -/
+def SeenA (m : Nat) (W : World) (paths : List (String × Sg)) (fuel : Nat) (seen : List String) : Prop :=
+  ∀ f ∈ seen, ∃ (g : Fn) (ctx : ArgCtx) (fis : FIS) (rf refs0 : Refs) (stack0 : List String),
+    W.find f = some g ∧ analyse m W fuel refs0 stack0 g ctx = .ok (fis, rf) ∧ FIS.pathsOK paths fis
+
+theorem callRes_frame {m : Nat} {W : World} {paths : List (String × Sg)} {fuel : Nat} (hIH : PFrame m W paths fuel)
+    {f : String} {g : Fn} {ctx : ArgCtx} {refs : Refs} {stack : List String} {fis : FIS} {rf : Refs}
+    (hfind : W.find f = some g) (ha : analyse m W fuel refs stack g ctx = .ok (fis, rf))
+    (hsubs : FIS.pathsOKL paths fis.subs) (kp : Option String) (df : Bool)
+    (hkey : ∀ path, (kp = some path ∨ (kp = none ∧ df = true ∧ g.storePath = some path)) → aget paths path ≠ none)
+    (q : PSt) (pos : List RVal) (kw : List (String × RVal)) :
+    KFrame paths q (callRes W (plainFn W fuel) q f pos kw kp df).2 := by
+  simp only [callRes, hfind]
+  cases bindRun g.params pos kw 0 with
+  | none => exact KFrame.refl _ _
+  | some env' =>
+    simp only
+    have h1 := hIH refs stack g ctx env' fis rf q ha hsubs
+    cases hr : plainFn W fuel q g env' with
+    | mk v st' =>
+      rw [hr] at h1
+      cases v with
+      | error e => exact h1
+      | ok v =>
+        simp only
+        have hset : ∀ path, aget paths path ≠ none → KFrame paths q { st' with kept := aset st'.kept path v } := by
+          intro path hpath p hp
+          have hne : p ≠ path := by
+            intro e'; subst e'; exact hpath hp
+          simp only
+          rw [aget_aset_ne _ _ _ _ hne]; exact h1 p hp
+        cases kp with
+        | some path => exact hset path (hkey path (Or.inl rfl))
+        | none =>
+          cases df with
+          | false => exact h1
+          | true =>
+            simp only [if_true]
+            cases hsp : g.storePath with
+            | none => exact h1
+            | some path => exact hset path (hkey path (Or.inr ⟨rfl, rfl, hsp⟩))
+
+theorem plainItems_frame {m : Nat} {W : World} {paths : List (String × Sg)} {fuel : Nat} (hIH : PFrame m W paths fuel)
+    (fn : Fn) (isig : Sg) (stack : List String) (env : Env) :
+    ∀ (its : List Item) (s sfin : VisitSt) (results : List RVal) (q : PSt),
+      visitItems m W (analyse m W fuel) fn isig stack s its = .ok sfin → FIS.pathsOKL paths sfin.inters →
+      SeenA m W paths fuel s.seen →
+      KFrame paths q (plainItems W (plainFn W fuel) env q results its).2
+  | [], _, _, _, q, _, _, _ => KFrame.refl _ q
+  | it :: its, s, sfin, results, q, h, hok, hseen => by
+    obtain ⟨t, hv, hr⟩ := visitItems_cons_inv h
+    rw [plainItems_cons]
+    have claim : KFrame paths q (plainItemRes W (plainFn W fuel) env q results it).2 ∧ SeenA m W paths fuel t.seen := by
+      have node : ∀ (f : String) (g : Fn) (c : ArgCtx) (fis nd : FIS) (rf refs0 : Refs) (stack0 : List String) (kp : Option String)
+          (df : Bool) (pos : List RVal) (kw : List (String × RVal)),
+          W.find f = some g → analyse m W fuel refs0 stack0 g c = .ok (fis, rf) → nd ∈ sfin.inters →
+          nd.subs = fis.subs → nd.storePath = (match kp with | some p => some p | none => g.storePath) →
+          KFrame paths q (callRes W (plainFn W fuel) q f pos kw kp df).2 := by
+        intro f g c fis nd rf refs0 stack0 kp df pos kw hfind ha hin hsubs hsp
+        obtain ⟨k1, k2⟩ := (pathsOK_iff paths nd).mp (pathsOKL_mem hok hin)
+        rw [hsubs] at k2
+        refine callRes_frame hIH hfind ha k2 kp df (fun path hp => ?_) q pos kw
+        have : nd.storePath = some path := by
+          rw [hsp]
+          rcases hp with rfl | ⟨rfl, _, hp⟩
+          · rfl
+          · exact hp
+        rw [k1 path this]; simp
       cases it with
       | call f l =>
         obtain ⟨g, c, named, fis, rf, hstep, e⟩ := plain_inv (by simpa [visitItem] using hv)
         have hin : fis ∈ sfin.inters := mem_final_inters hr (by rw [e]; simp)
-        obtain ⟨k1, k2⟩ := (pathsOK_iff paths fis).mp (pathsOKL_mem hok hin)
-        have := sim_callstep hIH B hitems hvis hplain (it := .call f l) rfl hstep none
-          (fun path hp => by
-            rcases hp with hp | ⟨_, hp⟩
-            · cases hp
-            · exact k1 path (by rw [analyse_storePath hstep.sub, hp])) k2 hS (q := q)
-        rw [plainItemRes_call]
-        refine ⟨this.1, this.2, ?_⟩
-        rw [e]; exact hseen
-      | callArgs f args kwargs rtA rtK l =>
+        rw [plainItemRes_call']
+        exact ⟨node f g _ fis fis rf _ _ none true [] [] hstep.find hstep.sub hin rfl (analyse_storePath hstep.sub),
+          by rw [e]; exact hseen⟩
+      | callArgs f a k ra rk l =>
         obtain ⟨g, c, named, fis, rf, hstep, e⟩ := plain_inv (by simpa [visitItem] using hv)
         have hin : fis ∈ sfin.inters := mem_final_inters hr (by rw [e]; simp)
-        obtain ⟨k1, k2⟩ := (pathsOK_iff paths fis).mp (pathsOKL_mem hok hin)
-        have := sim_callstep hIH B hitems hvis hplain (it := .callArgs f args kwargs rtA rtK l) rfl hstep none
-          (fun path hp => by
-            rcases hp with hp | ⟨_, hp⟩
-            · cases hp
-            · exact k1 path (by rw [analyse_storePath hstep.sub, hp])) k2 hS (q := q)
-        rw [plainItemRes_callArgs]
-        refine ⟨this.1, this.2, ?_⟩
-        rw [e]; exact hseen
-      | keep path f args kwargs rtA rtK l =>
+        rw [plainItemRes_callArgs']
+        exact ⟨node f g _ fis fis rf _ _ none false _ _ hstep.find hstep.sub hin rfl (analyse_storePath hstep.sub),
+          by rw [e]; exact hseen⟩
+      | keep path f a k ra rk l =>
         obtain ⟨g, c, named, fis, rf, hstep, _, e⟩ := keep_inv hv
         have hin : fis.withPath path ∈ sfin.inters := mem_final_inters hr (by rw [e]; simp)
-        obtain ⟨k1, k2⟩ := (pathsOK_iff paths _).mp (pathsOKL_mem hok hin)
-        have := sim_callstep hIH B hitems hvis hplain (it := .keep path f args kwargs rtA rtK l) rfl hstep (some path)
-          (fun path' hp => by
-            rcases hp with hp | ⟨hp, _⟩
-            · cases hp; exact k1 path rfl
-            · cases hp) k2 hS (q := q)
-        rw [plainItemRes_keep]
-        refine ⟨this.1, this.2, ?_⟩
-        rw [e]; exact hseen
+        rw [plainItemRes_keep']
+        exact ⟨node f g _ fis (fis.withPath path) rf _ _ (some path) false _ _ hstep.find hstep.sub hin rfl rfl,
+          by rw [e]; exact hseen⟩
       | ref f l =>
-        rw [plainItemRes_ref]
-        rcases ref_inv hv with ⟨hin, e⟩ | ⟨hnot, g, c, named, fis, rf, hstep, e⟩
-        · have := sim_seen hIH B.hW B.hx hseen hin hS q
-          refine ⟨this.1, this.2, ?_⟩
-          rw [e]; exact hseen
-        · have hin : fis ∈ sfin.inters := mem_final_inters hr (by rw [e]; simp)
-          have hfok := pathsOKL_mem hok hin
+        rw [plainItemRes_ref']
+        rcases ref_inv hv with ⟨hin, e⟩ | ⟨_, g, c, named, fis, rf, hstep, e⟩
+        · obtain ⟨g, c, fis, rf, refs0, stack0, hfind, ha, hfok⟩ := hseen f hin
           obtain ⟨k1, k2⟩ := (pathsOK_iff paths fis).mp hfok
-          have := sim_callstep hIH B hitems hvis hplain (it := .ref f l) rfl hstep none
-            (fun path hp => by
-              rcases hp with hp | ⟨_, hp⟩
-              · cases hp
-              · exact k1 path (by rw [analyse_storePath hstep.sub, hp])) k2 hS (q := q)
-          refine ⟨this.1, this.2, ?_⟩
+          refine ⟨callRes_frame hIH hfind ha k2 none true (fun path hp => ?_) q [] [], by rw [e]; exact hseen⟩
+          rcases hp with hp | ⟨_, _, hp⟩
+          · cases hp
+          · rw [k1 path (by rw [analyse_storePath ha, hp])]; simp
+        · have hin : fis ∈ sfin.inters := mem_final_inters hr (by rw [e]; simp)
+          refine ⟨node f g _ fis fis rf _ _ none true [] [] hstep.find hstep.sub hin rfl (analyse_storePath hstep.sub), ?_⟩
           rw [e]
           intro f' hf'
           rcases mem_cons.mp hf' with rfl | hf'
-          · refine ⟨g, ⟨named, c⟩, fis, rf, s.refs, stack ++ [f'], hstep.find, hstep.sub, ?_, hfok⟩
-            intro env' hb
-            have hres : (plainItems W (plainFn W fuel) env p0 [] pre).1 = .ok results := by rw [hplain]
-            exact sub_chain B hitems hvis hres (it := .ref f' l) rfl hstep hb
+          · exact ⟨g, ⟨named, c⟩, fis, rf, s.refs, stack ++ [f'], hstep.find, hstep.sub, pathsOKL_mem hok hin⟩
           · exact hseen f' hf'
-      | load path l => exact absurd (U.noLoads fn B.hU _ hmem) (by simp [Item.noLoad])
-      | evalCall f l => exact absurd (U.noLoads fn B.hU _ hmem) (by simp [Item.noLoad])
-    obtain ⟨c1, c2, c3⟩ := claim
-    cases hR : runItemRes W paths (runFn W paths fuel) env xst results it with
-    | mk rv xst' =>
-      cases hP : plainItemRes W (plainFn W fuel) env q results it with
-      | mk pv q' =>
-        rw [hR, hP] at c1
-        rw [hR] at c2
-        simp only at c1 c2
-        subst c1
-        cases rv with
-        | error e => exact ⟨rfl, c2⟩
-        | ok v =>
-          simp only
-          exact sim_items hIH B stack refs p0 its (pre ++ [it]) t sfin (results ++ [v]) q' xst'
-            (by rw [hitems]; simp) (visitItems_snoc hvis hv) (plainItems_snoc W _ env pre p0 q q' [] results it v hplain hP)
-            hr hok c3 c2
+      | load path l =>
+        refine ⟨?_, by rw [load_inv hv]; exact hseen⟩
+        simp only [plainItemRes]
+        cases aget q.kept path <;> exact KFrame.refl _ _
+      | evalCall f l => simp [visitItem] at hv
+    obtain ⟨c1, c2⟩ := claim
+    cases hR : plainItemRes W (plainFn W fuel) env q results it with
+    | mk rv q' =>
+      rw [hR] at c1
+      cases rv with
+      | error e => exact c1
+      | ok v => exact c1.trans (plainItems_frame hIH fn isig stack env its t sfin _ q' hr hok c2)
 
-theorem runFn_succ (W : World) (paths : List (String × Sg)) (fuel : Nat) (st : XSt) (fn : Fn) (env : Env) :
-    (runFn W paths (fuel + 1) st fn env).1 =
-      bodyOutcome W fn env (runItems W (some paths) (runFn W paths fuel) fn env { st with log := st.log ++ [fn.name] } [] fn.items).1 ∧
-    (runFn W paths (fuel + 1) st fn env).2.store =
-      (runItems W (some paths) (runFn W paths fuel) fn env { st with log := st.log ++ [fn.name] } [] fn.items).2.store := by
-  simp only [runFn]
-  generalize runItems W (some paths) (runFn W paths fuel) fn env { st with log := st.log ++ [fn.name] } [] fn.items = r
-  obtain ⟨v, q⟩ := r
-  cases v with
-  | error e => exact ⟨rfl, rfl⟩
-  | ok results =>
-    simp only [bodyOutcome]
-    cases fn.fails <;> exact ⟨rfl, rfl⟩
-
-/-- **Simulation theorem**: for every nesting depth, the body of an analysed, chained call run under dds against a
-sound store returns the plain value and leaves a sound store -/
-theorem sim_fn (U : Universe) (m x : Nat) (W : World) (paths : List (String × Sg)) (hW : U.world W)
-    (hx : W.extVersion = x) : ∀ fuel, SimFn U m x W paths fuel
+theorem pframe (m : Nat) (W : World) (paths : List (String × Sg)) : ∀ fuel, PFrame m W paths fuel
   | 0 => by
-    intro fn ctx env refs stack fis r st p _ _ ha
-    exact absurd ha analyse_zero
+    intro refs stack fn ctx env fis r q h
+    exact absurd h analyse_zero
   | k + 1 => by
-    intro fn ctx env refs stack fis r st p hU hch ha hsubs hS
-    obtain ⟨ev, io, sv, b, d, ret, a⟩ := analyse_inv ha
-    have B : BodyCtx U m x W fn ctx env ev io := ⟨hW, hx, hU, hch, a.hvars, a.hinput⟩
-    have hsub' : FIS.pathsOKL paths sv.inters := by
-      have : fis.subs = sv.inters := by rw [a.hfis]; rfl
-      rw [← this]; exact hsubs
-    obtain ⟨r1, r2⟩ := runFn_succ W paths k st fn env
-    have := sim_items (sim_fn U m x W paths hW hx k) B stack refs { p with log := p.log ++ [fn.name] } fn.items [] _ sv []
-      { p with log := p.log ++ [fn.name] } { st with log := st.log ++ [fn.name] } rfl rfl rfl a.hvisit hsub'
-      (fun f hf => absurd hf (by simp)) hS
-    rw [r1, r2, plainFn_succ_fst, this.1]
-    exact ⟨rfl, this.2⟩
-
-/-! ## One evaluation -/
-
-/-- a successful analysis phase: what was computed -/
-structure PhaseOk (m : Nat) (W : World) (S : PStore) (rq : Request) (fn : Fn) (env : Env) (fis' : FIS)
-    (paths : List (String × Sg)) (named : List (String × Option Sg)) (refs0 : Refs) (fis : FIS) (r : Refs) : Prop where
-  hfind : W.find rq.fn = some fn
-  hnamed : getArgCtx m fn.params rq.args rq.kwargs = .ok named
-  hana : analyse m W W.fuel refs0 [] fn ⟨named, none⟩ = .ok (fis, r)
-  hfis : fis' = (match entryPathOf rq fn with | some p => fis.withPath p | none => fis)
-  hpaths : allStorePaths [] fis' = .ok paths
-  hbind : bindRun fn.params (rq.args.map RVal.py) (rq.kwargs.map (fun kv => (kv.1, RVal.py kv.2))) 0 = some env
-
-theorem analysisPhase_inv {m : Nat} {W : World} {S : PStore} {rq : Request} {fn : Fn} {env : Env} {fis' : FIS}
-    {paths : List (String × Sg)} (h : analysisPhase m W S rq = .ok (fn, env, fis', paths)) :
-    ∃ named refs0 fis r, PhaseOk m W S rq fn env fis' paths named refs0 fis r := by
-  unfold analysisPhase at h
-  cases hf : W.find rq.fn with
-  | none => simp [hf] at h
-  | some fn0 =>
-    simp only [hf] at h
-    by_cases hb : badEntryPath rq fn0 = true
-    · simp [hb] at h
-    · simp only [hb, Bool.false_eq_true, if_false] at h
-      cases hn : liftA (getArgCtx m fn0.params rq.args rq.kwargs) with
-      | error e => simp [hn] at h
-      | ok named =>
-        simp only [hn] at h
-        cases hi : indirectFn W W.fuel [] ({}, []) fn0 with
-        | error e => simp [hi] at h
-        | ok ind =>
-          obtain ⟨ind, _⟩ := ind
-          simp only [hi] at h
-          cases ho : orderFn W ind.stores W.fuel [] fn0 with
-          | error e => simp [ho] at h
-          | ok _ =>
-            simp only [ho] at h
-            cases hp : fetchPaths S (loadsToCheck ind) with
-            | error e => simp [hp] at h
-            | ok refs0 =>
-              simp only [hp] at h
-              unfold analysisWith at h
-              cases ha : analyse m W W.fuel refs0 [] fn0 ⟨named, none⟩ with
-              | error e => simp [ha] at h
-              | ok fr =>
-                obtain ⟨fis, r⟩ := fr
-                simp only [ha] at h
-                split at h
-                · simp at h
-                · rename_i paths0 hs
-                  split at h
-                  · cases h
-                  · cases hbd : bindRun fn0.params (rq.args.map RVal.py) (rq.kwargs.map (fun kv => (kv.1, RVal.py kv.2))) 0 with
-                    | none => simp [hbd] at h
-                    | some env0 =>
-                      simp only [hbd, Except.ok.injEq, Prod.mk.injEq] at h
-                      obtain ⟨rfl, rfl, rfl, rfl⟩ := h
-                      exact ⟨named, refs0, fis, r, ⟨hf, liftA_ok hn, ha, rfl, hs, hbd⟩⟩
-
-theorem zipArgs_consts (results : List RVal) (env : Env) : ∀ (args : List PyVal),
-    zipArgs results env (constArgs args) [] = args.map RVal.py
-  | [] => rfl
-  | a :: as => by simp [constArgs, zipArgs, argValue] ; exact zipArgs_consts results env as
-
-theorem zipKw_consts (results : List RVal) (env : Env) : ∀ (kw : List (String × PyVal)),
-    zipKw results env (constKw kw) [] = kw.map (fun kv => (kv.1, RVal.py kv.2))
-  | [] => rfl
-  | (n, a) :: as => by simp [constKw, zipKw, argValue]; exact zipKw_consts results env as
-
-theorem argPairs_allSome {a : ArgCtx} {pa : List (String × Sg)} (h : argPairs a = .ok pa) (hi : a.inner = none) :
-    ∃ kvs, allSome a.named = some kvs := by
-  unfold argPairs at h
-  cases hs : allSome a.named with
-  | some kvs => exact ⟨kvs, rfl⟩
-  | none => simp [hs, hi] at h
-
-/-- the chain of an entry call -/
-theorem root_chain (U : Universe) {m : Nat} (W : World) {fn : Fn} (hU : U.fns fn) {args : List PyVal} {kwargs : List (String × PyVal)}
-    (hargs : ∀ a ∈ args, U.avals a) (hkw : ∀ kv ∈ kwargs, U.avals kv.2)
-    {named : List (String × Option Sg)} (hn : getArgCtx m fn.params args kwargs = .ok named)
-    {kvs : List (String × Sg)} (hall : allSome named = some kvs)
-    {env : Env} (hb : bindRun fn.params (args.map RVal.py) (kwargs.map (fun kv => (kv.1, RVal.py kv.2))) 0 = some env) :
-    Chain U m W fn ⟨named, none⟩ env := by
-  have hast := getArgCtxAstFrom_const m args kwargs fn.params 0 named (U.plainParams fn hU) hn
-  rw [← zipArgs_consts [] [] args, ← zipKw_consts [] [] kwargs] at hb
-  obtain ⟨vals, r1, r2, r3, r4⟩ := const_case U [] [] [] []
-    (fun v hv => by
-      simp only [constArgs, mem_map, AstArg.const.injEq] at hv
-      obtain ⟨a, ha, rfl⟩ := hv; exact hargs a ha)
-    (fun n v hv => by
-      simp only [constKw, mem_map, Prod.mk.injEq, AstArg.const.injEq] at hv
-      obtain ⟨kv, hkv, _, rfl⟩ := hv; exact hkw kv hkv)
-    fn.params 0 named kvs env (U.defaultsIn fn hU) hast hall hb
-  rw [r1, r2]
-  exact Chain.const W fn none vals r3 r4
-
-theorem sync_blobs (S : PStore) (ps : List (String × Sg)) : (S.sync ps).blobs = S.blobs := by
-  unfold PStore.sync; split <;> rfl
-
-theorem Sound.sync {U : Universe} {m x : Nat} {S : PStore} (h : Sound U m x S) (ps : List (String × Sg)) :
-    Sound U m x (S.sync ps) := by
-  intro k v hk; rw [sync_blobs] at hk; exact h k v hk
-
-/-- the request's arguments are values on which `dds_hash` is injective (`Universe.vals`) -/
-def Universe.request (U : Universe) (rq : Request) : Prop :=
-  (∀ a ∈ rq.args, U.avals a) ∧ (∀ kv ∈ rq.kwargs, U.avals kv.2)
-
-theorem withPath_retSig (f : FIS) (p : String) : (f.withPath p).retSig = f.retSig := rfl
-theorem withPath_subs (f : FIS) (p : String) : (f.withPath p).subs = f.subs := rfl
-
-/-- **`memo_correct`.** One evaluation, in any version of the code, against a sound store: when the analysis accepts
-the evaluation and the eval stage runs, the value returned (or the exception raised) is exactly that of plain
-execution of the current code with the current arguments; in every case the store stays sound. -/
-theorem memo_correct (U : Universe) (m x : Nat) (W : World) (S : PStore) (rq : Request)
-    (hW : U.world W) (hx : W.extVersion = x) (hrq : U.request rq) (hS : Sound U m x S) :
-    Sound U m x (evalStep m W S rq).store ∧
-    ∀ fn env fis' paths, analysisPhase m W S rq = .ok (fn, env, fis', paths) → Stage.eval ∈ rq.stages →
-      ∀ p, (evalStep m W S rq).value = ((plainFn W W.fuel p fn env).1).map some := by
-  cases ha : analysisPhase m W S rq with
-  | error e =>
-    refine ⟨?_, fun _ _ _ _ h => by cases h⟩
-    simp only [evalStep, ha]; exact hS
-  | ok res =>
-    obtain ⟨fn, env, fis', paths⟩ := res
-    obtain ⟨named, refs0, fis, r, P⟩ := analysisPhase_inv ha
-    by_cases hs : Stage.eval ∈ rq.stages
-    · have hU := U.find hW P.hfind
-      -- the root call is chained: all its arguments are known
-      obtain ⟨ev, io, sv, b, d, ret, a⟩ := analyse_inv (fuel := W.funs.length + 1) P.hana
-      obtain ⟨pa, hpa⟩ := buildReturnSig_argPairs a.hret
-      obtain ⟨kvs, hall⟩ := argPairs_allSome hpa rfl
-      have hch := root_chain U W hU hrq.1 hrq.2 P.hnamed hall P.hbind
-      have hsig : fis'.retSig = fis.retSig := by rw [P.hfis]; cases entryPathOf rq fn <;> rfl
-      have hsubs' : fis'.subs = fis.subs := by rw [P.hfis]; cases entryPathOf rq fn <;> rfl
-      obtain ⟨k1, k2⟩ := (pathsOK_iff paths fis').mp ((allStorePaths_ok fis' [] paths P.hpaths).2 paths (fun _ _ h => h))
-      rw [hsubs'] at k2
-      rw [hsig] at k1
-      -- the result and the store before the commit of the paths
-      have key : ∀ p, ∃ (res : Except XErr RVal) (st : XSt),
-          (evalStep m W S rq).value = res.map some ∧
-          ((evalStep m W S rq).store = st.store ∨ (evalStep m W S rq).store = st.store.sync paths) ∧
-          res = (plainFn W W.fuel p fn env).1 ∧ Sound U m x st.store := by
-        intro p
-        simp only [evalStep, ha, hs, not_true_eq_false, if_false]
-        rw [hsig]
-        cases hb : sgGet S.blobs fis.retSig with
-        | some v =>
-          refine ⟨.ok v, { store := S }, ?_, ?_, (served_right hS hW hx hU hch P.hana hb p).symm, hS⟩
-          · rfl
-          · simp only; split <;> simp
-        | none =>
-          simp only
-          obtain ⟨s1, s2⟩ := sim_fn U m x W paths hW hx W.fuel fn ⟨named, none⟩ env refs0 [] fis r { store := S } p hU hch P.hana k2 hS
-          cases hr : runFn W paths W.fuel { store := S } fn env with
-          | mk rv st =>
-            rw [hr] at s1 s2
-            simp only at s1 s2
-            cases rv with
-            | error e => exact ⟨.error e, st, rfl, Or.inl rfl, s1, s2⟩
-            | ok v =>
-              simp only
-              cases hp : fis'.storePath with
-              | none =>
-                refine ⟨.ok v, st, rfl, ?_, s1, s2⟩
-                simp only; split <;> simp
-              | some pth =>
-                simp only [k1 pth hp]
-                refine ⟨.ok v, { st with store := st.store.storeBlob fis.retSig v }, rfl, ?_, s1,
-                  Sound.storeBlob s2 hW hx hU hch P.hana s1.symm⟩
-                simp only; split <;> simp
-      refine ⟨?_, ?_⟩
-      · obtain ⟨res, st, _, h2, _, h4⟩ := key { kept := [] }
-        rcases h2 with h2 | h2 <;> rw [h2]
-        · exact h4
-        · exact h4.sync paths
-      · intro fn' env' fis'' paths' heq _ p
-        simp only [Except.ok.injEq, Prod.mk.injEq] at heq
-        obtain ⟨rfl, rfl, _, _⟩ := heq
-        obtain ⟨res, st, h1, _, h3, _⟩ := key p
-        rw [h1, h3]
-    · refine ⟨?_, fun _ _ _ _ _ h => absurd h hs⟩
-      simp only [evalStep, ha, hs, not_false_eq_true, if_true]; exact hS
-
-/-! ## Histories -/
-
-/-- a step of a history: a version of the code and a request evaluated against the store left by the steps before -/
-structure HStep where
-  world : World
-  rq : Request
-
-def HStep.ok (U : Universe) (x : Nat) (s : HStep) : Prop :=
-  U.world s.world ∧ s.world.extVersion = x ∧ U.request s.rq
-
-/-- the store after a history (any sequence of versions of the code, requests, stage lists) -/
-def runHistory (m : Nat) : PStore → List HStep → PStore
-  | S, [] => S
-  | S, s :: ss => runHistory m (evalStep m s.world S s.rq).store ss
-
-theorem sound_empty (U : Universe) (m x : Nat) (noop : Bool) : Sound U m x { noop := noop } := by
-  intro k v h; simp [sgGet] at h
-
-theorem sound_history (U : Universe) (m x : Nat) : ∀ (hist : List HStep) (S : PStore), Sound U m x S →
-    (∀ s ∈ hist, s.ok U x) → Sound U m x (runHistory m S hist)
-  | [], _, hS, _ => hS
-  | s :: ss, S, hS, hok => by
-    obtain ⟨h1, h2, h3⟩ := hok s mem_cons_self
-    exact sound_history U m x ss _ (memo_correct U m x s.world S s.rq h1 h2 h3 hS).1
-      (fun t ht => hok t (mem_cons_of_mem _ ht))
-
-/-- **`history_correct` (C01).** After *any* history of evaluations — of older versions of the code, with other
-variable values and arguments, restricted to any stages, failed or not — starting from an empty store, an evaluation
-of the current version returns exactly what plain execution of the current version returns. -/
-theorem history_correct (U : Universe) (m x : Nat) (noop : Bool) (hist : List HStep) (hok : ∀ s ∈ hist, s.ok U x)
-    (W : World) (rq : Request) (hW : U.world W) (hx : W.extVersion = x) (hrq : U.request rq)
-    (fn : Fn) (env : Env) (fis : FIS) (paths : List (String × Sg))
-    (ha : analysisPhase m W (runHistory m { noop := noop } hist) rq = .ok (fn, env, fis, paths))
-    (hs : Stage.eval ∈ rq.stages) (p : PSt) :
-    (evalStep m W (runHistory m { noop := noop } hist) rq).value = ((plainFn W W.fuel p fn env).1).map some :=
-  (memo_correct U m x W _ rq hW hx hrq (sound_history U m x hist _ (sound_empty U m x noop) hok)).2 fn env fis paths ha hs p
+    intro refs stack fn ctx env fis r q h hok
+    obtain ⟨ev, io, sv, b, d, ret, a⟩ := analyse_inv h
+    have hsub : fis.subs = sv.inters := by rw [a.hfis]; rfl
+    rw [hsub] at hok
+    rw [plainFn_succ_snd]
+    exact plainItems_frame (pframe m W paths k) fn _ stack env fn.items _ sv [] { q with log := q.log ++ [fn.name] }
+      a.hvisit hok (fun f hf => absurd hf (by simp))
 
 end Dds
